@@ -20,7 +20,8 @@ fn has(s: &TSig, q: Quirk) -> bool { s.quirks.contains(&q) }
 pub fn build_tcp(table: char, s: &TSig, c: &Choice) -> Option<Vec<u8>> {
     match s.version { IpVersion::V4 if c.v6 => return None, IpVersion::V6 if !c.v6 => return None, _ => {} }
     let init: i32 = match s.ittl { Ttl::Value(i) | Ttl::Guess(i) | Ttl::Bad(i) => i as i32, Ttl::Distance(a, b) => a as i32 + b as i32 };
-    let ttl = init - c.hops as i32;
+    // `NN-`: any TTL from 1 to NN (the hop choice is stretched over the whole range); otherwise initial - hops
+    let ttl = if let Ttl::Bad(i) = s.ittl { if i == 0 { 0 } else { (i as i32 - (c.hops as i32 * i as i32) / 31).max(1) } } else { init.min(255) - c.hops as i32 };
     if ttl < 0 || ttl > 255 { return None; }
     let has_mss_opt = s.olayout.contains(&TcpOption::Mss);
     let mss: Option<u16> = if has_mss_opt { Some(s.mss.unwrap_or(c.mss)) } else { if s.mss.map(|m| m != 0).unwrap_or(false) { return None; } None };   // p0f: no MSS option reads as 0
